@@ -1144,6 +1144,45 @@ def _reveals_set_order(function_name: str, args: Sequence[Any]) -> bool:
     )
 
 
+def _is_too_large_to_compute(operator: ast.operator, left: Any, right: Any) -> bool:
+    """Whether the result of a binary operation has more than some thousand digits or elements.
+
+    9 ** 9 ** 9 takes python hours, and the program may never get there: "if x or 9 ** 9 ** 9".
+    """
+    limit = 10_000
+    sizes = [
+        value.bit_length() if isinstance(value, int) else len(value)
+        for value in (left, right)
+        if isinstance(value, (int, str, bytes, tuple, list))
+    ]
+    if isinstance(operator, ast.Pow) and isinstance(right, int) and len(sizes) == 2:
+        return sizes[0] * max(right, 1) > limit
+    if isinstance(operator, ast.LShift) and isinstance(right, int):
+        return right > limit
+    if isinstance(operator, ast.Mult) and len(sizes) == 2:
+        repeated = [value for value in (left, right) if not isinstance(value, int)]
+        number = [value for value in (left, right) if isinstance(value, int)]
+        if repeated and number:
+            return len(repeated[0]) * max(number[0], 1) > limit
+
+    return max(sizes, default=0) > limit
+
+
+def _is_too_costly_to_call(function_name: str, args: Sequence[Any], is_method: bool) -> bool:
+    """Whether a call has to go through, or build, more than some thousand elements."""
+    limit = 10_000
+    if function_name == "pow" and len(args) == 2:
+        return _is_too_large_to_compute(ast.Pow(), *args)
+    if is_method and any(type(arg) is int and arg > limit for arg in args):
+        return True  # "".ljust(10 ** 10)
+
+    return function_name != "len" and any(
+        isinstance(arg, (range, str, bytes, tuple, list, set, frozenset, dict))
+        and len(arg) > limit
+        for arg in args
+    )
+
+
 def _literal_value(node: ast.AST) -> bool:
     if has_side_effect(node, safe_callable_whitelist=constants.PURE_BUILTIN_FUNCTIONS):
         raise ValueError("Cannot find a deterministic value for a node with a side effect")
@@ -1153,6 +1192,8 @@ def _literal_value(node: ast.AST) -> bool:
     ):
         left = literal_value(node.left)
         right = literal_value(node.right)
+        if _is_too_large_to_compute(node.op, left, right):
+            raise ValueError("The value is too large to be computed while formatting")
         return constants.COMPARISON_OPERATORS[type(node.op)](left, right)
 
     if match_template(node, ast.Compare(left=object, ops={object}, comparators={object})):
@@ -1194,6 +1235,8 @@ def _literal_value(node: ast.AST) -> bool:
         args = [literal_value(arg) for arg in node.args]
         if _reveals_set_order(node.func.attr, args):
             raise ValueError("The order of a set is not the same in every process")
+        if _is_too_costly_to_call(node.func.attr, args, is_method=True):
+            raise ValueError("The value is too large to be computed while formatting")
         return getattr(node_value, node.func.attr)(*args)
 
     if isinstance(node, ast.Call) and not node.keywords:  # e.g. int("10", base=2) is not int("10")
@@ -1201,6 +1244,8 @@ def _literal_value(node: ast.AST) -> bool:
             args = [literal_value(arg) for arg in node.args]
             if _reveals_set_order(node.func.id, args):
                 raise ValueError("The order of a set is not the same in every process")
+            if _is_too_costly_to_call(node.func.id, args, is_method=False):
+                raise ValueError("The value is too large to be computed while formatting")
             return getattr(builtins, node.func.id)(*args)
 
     return ast.literal_eval(node)
